@@ -4,6 +4,8 @@ package main
 
 import (
 	"fmt"
+	"strings"
+	"sync"
 	"go/ast"
 	"go/token"
 	"go/types"
@@ -525,6 +527,14 @@ type writeSet struct {
 
 func (fv *FV) writesOf(n ast.Node) *writeSet {
 	ws := &writeSet{vars: map[types.Object]bool{}, heapComps: map[string]bool{}}
+	addComps := func(cs []string, all bool) {
+		if all {
+			ws.heapAll = true
+		}
+		for _, c := range cs {
+			ws.heapComps[c] = true
+		}
+	}
 	markLHS := func(x ast.Expr) {
 		x = ast.Unparen(x)
 		switch x := x.(type) {
@@ -535,13 +545,15 @@ func (fv *FV) writesOf(n ast.Node) *writeSet {
 				} else {
 					ws.vars[o] = true
 					if fv.boxed[o] {
-						ws.heapAll = true
+						addComps(cellComps(boxComp(o.Type()), o.Type()), false)
+					}
+					if isObjectType(o.Type()) {
+						addComps(leafComps(o.Type()), false)
 					}
 				}
 			}
 		default:
-			// field/index/deref writes: be conservative
-			ws.heapAll = true
+			addComps(fv.lhsComps(x))
 			// a write to an array-typed local's element assigns the local
 			for {
 				switch y := x.(type) {
@@ -583,8 +595,21 @@ func (fv *FV) writesOf(n ast.Node) *writeSet {
 				markLHS(s.Value)
 			}
 		case *ast.CallExpr:
-			if fv.callMayWriteHeap(s) {
-				ws.heapAll = true
+			addComps(fv.callWriteComps(s))
+		case *ast.CompositeLit:
+			if t := fv.typeOf(s); t != nil {
+				switch u := deref(t).Underlying().(type) {
+				case *types.Struct:
+					addComps(leafComps(deref(t)), false)
+				case *types.Slice:
+					if isObjectType(u.Elem()) {
+						addComps(leafComps(u.Elem()), false)
+					} else {
+						addComps(cellComps("E$"+sanitize(elemKey(u.Elem())), u.Elem()), false)
+					}
+				case *types.Map:
+					addComps(mapComps(u), false)
+				}
 			}
 		case *ast.UnaryExpr:
 			if s.Op == token.AND {
@@ -633,7 +658,263 @@ func (fv *FV) havocWrites(e *Env, ws *writeSet) {
 	}
 	if ws.heapAll {
 		fv.havocAll(e)
+		return
 	}
+	for _, c := range sortedBoolKeys(ws.heapComps) {
+		fv.havocComp(e, c)
+	}
+	fv.havocAlloc(e)
+}
+
+// staticSorts remembers the SMT sort of statically named components so that a
+// component can be havocked before its first dynamic use.
+var staticSorts sync.Map
+
+func regSort(comp string, idx []string, elem string) string {
+	staticSorts.Store(comp, cellSort(idx, elem))
+	return comp
+}
+
+var idxRef = []string{sRef}
+var idxElem = []string{sRef, sInt}
+
+// cellCompsN names the components holding a value of type t in family comp.
+func cellCompsN(comp string, t types.Type, idx []string) []string {
+	k, srt := sortOf(t)
+	if k == kSlice {
+		return []string{regSort(comp+"#arr", idx, sRef), regSort(comp+"#off", idx, sInt), regSort(comp+"#len", idx, sInt), regSort(comp+"#cap", idx, sInt)}
+	}
+	return []string{regSort(comp, idx, srt)}
+}
+
+func cellComps(comp string, t types.Type) []string {
+	if strings.HasPrefix(comp, "E$") {
+		return cellCompsN(comp, t, idxElem)
+	}
+	return cellCompsN(comp, t, idxRef)
+}
+
+// leafComps names every component that holds part of an object of type t.
+func leafComps(t types.Type) []string {
+	if isBigInt(t) {
+		return []string{regSort("bigval", idxRef, sInt)}
+	}
+	st := structOf(t)
+	if st == nil {
+		return nil
+	}
+	var out []string
+	for i := 0; i < st.NumFields(); i++ {
+		f := st.Field(i)
+		if isObjectType(f.Type()) {
+			out = append(out, leafComps(f.Type())...)
+			continue
+		}
+		out = append(out, cellCompsN(fieldComp(t, f), f.Type(), idxRef)...)
+	}
+	return out
+}
+
+func mapComps(mt *types.Map) []string {
+	ks := mapKeySort(mt)
+	idx := []string{sRef, ks}
+	out := []string{regSort(mapDomComp(mt), idx, sBool), regSort("ML", idxRef, sInt)}
+	if k, _ := sortOf(mt.Elem()); k == kSlice {
+		return append(out, cellCompsN(mapValComp(mt), mt.Elem(), idx)...)
+	}
+	if isObjectType(mt.Elem()) {
+		out = append(out, regSort(mapValComp(mt), idx, sRef))
+		out = append(out, leafComps(mt.Elem())...)
+		return out
+	}
+	out = append(out, regSort(mapValComp(mt), idx, elemSortOf(mt.Elem())))
+	return out
+}
+
+// lhsComps: components written by an assignment to lvalue x (static).
+func (fv *FV) lhsComps(x ast.Expr) ([]string, bool) {
+	x = ast.Unparen(x)
+	switch x := x.(type) {
+	case *ast.SelectorExpr:
+		sel, ok := fv.info.Selections[x]
+		if !ok {
+			return nil, true
+		}
+		if sel.Kind() != types.FieldVal {
+			return nil, true
+		}
+		curT := sel.Recv()
+		idx := sel.Index()
+		for n, i := range idx {
+			curT = deref(curT)
+			st, ok := curT.Underlying().(*types.Struct)
+			if !ok {
+				return nil, true
+			}
+			f := st.Field(i)
+			if n == len(idx)-1 {
+				if isObjectType(f.Type()) {
+					return leafComps(f.Type()), false
+				}
+				return cellComps(fieldComp(curT, f), f.Type()), false
+			}
+			curT = f.Type()
+		}
+	case *ast.IndexExpr:
+		bt := fv.typeOf(x.X)
+		if bt == nil {
+			return nil, true
+		}
+		switch u := bt.Underlying().(type) {
+		case *types.Slice:
+			if isObjectType(u.Elem()) {
+				return leafComps(u.Elem()), false
+			}
+			return cellComps("E$"+sanitize(elemKey(u.Elem())), u.Elem()), false
+		case *types.Map:
+			return mapComps(u), false
+		case *types.Array:
+			return fv.lhsComps(x.X)
+		}
+	case *ast.StarExpr:
+		t := fv.typeOf(x)
+		if t == nil {
+			return nil, true
+		}
+		if isObjectType(t) {
+			return leafComps(t), false
+		}
+		return cellComps(boxComp(t), t), false
+	case *ast.Ident:
+		if o, ok := fv.info.ObjectOf(x).(*types.Var); ok && !isPkgLevel(o) {
+			if isObjectType(o.Type()) {
+				return leafComps(o.Type()), false
+			}
+			if fv.boxed[o] {
+				return cellComps(boxComp(o.Type()), o.Type()), false
+			}
+			return nil, false
+		}
+	}
+	return nil, true
+}
+
+// callWriteComps: components a call may write (static over-approximation).
+func (fv *FV) callWriteComps(x *ast.CallExpr) ([]string, bool) {
+	if !fv.callMayWriteHeap(x) {
+		return nil, false
+	}
+	if id, ok := ast.Unparen(x.Fun).(*ast.Ident); ok {
+		if b, ok := fv.info.Uses[id].(*types.Builtin); ok {
+			switch b.Name() {
+			case "append", "make":
+				t := fv.typeOf(x)
+				if t == nil {
+					return nil, true
+				}
+				switch u := t.Underlying().(type) {
+				case *types.Slice:
+					if isObjectType(u.Elem()) {
+						return leafComps(u.Elem()), false
+					}
+					return cellComps("E$"+sanitize(elemKey(u.Elem())), u.Elem()), false
+				case *types.Map:
+					return mapComps(u), false
+				}
+				return nil, false
+			case "delete":
+				if mt, ok := fv.typeOf(x.Args[0]).Underlying().(*types.Map); ok {
+					return mapComps(mt), false
+				}
+			case "new":
+				t := fv.typeOf(x.Args[0])
+				if isObjectType(t) {
+					return leafComps(t), false
+				}
+				return cellComps(boxComp(t), t), false
+			case "copy":
+				if st, ok := fv.typeOf(x.Args[0]).Underlying().(*types.Slice); ok && !isObjectType(st.Elem()) {
+					return cellComps("E$"+sanitize(elemKey(st.Elem())), st.Elem()), false
+				}
+			}
+			return nil, true
+		}
+	}
+	fn, _, isIface := fv.calleeOf(x)
+	if fn == nil || isIface {
+		return nil, true
+	}
+	if fn.Pkg() != nil && fn.Pkg().Path() == "math/big" {
+		return []string{"bigval"}, false
+	}
+	switch fn.FullName() {
+	case "fmt.Errorf", "errors.New":
+		return nil, false
+	}
+	u := fv.eng.unitOf(fn)
+	if u == nil || u.C == nil || !u.C.HasMod {
+		return nil, true
+	}
+	var out []string
+	for _, cl := range u.C.Modifies {
+		if cl.Expr == nil {
+			return nil, true
+		}
+		mx := ast.Unparen(cl.Expr)
+		t := cl.Info.Types[mx].Type
+		if t == nil {
+			return nil, true
+		}
+		// ghost variable
+		if id := identOf(mx); id != nil {
+			if v, ok := cl.Info.ObjectOf(id).(*types.Var); ok && fv.eng.ghostVars[v] {
+				out = append(out, regSort("G$"+sanitize(shortQual(v.Pkg())+"."+v.Name()), idxRef, ghostSort(v.Type())))
+				continue
+			}
+		}
+		if isObjectType(deref(t)) {
+			out = append(out, leafComps(deref(t))...)
+			continue
+		}
+		switch ut := t.Underlying().(type) {
+		case *types.Slice:
+			if isObjectType(ut.Elem()) {
+				out = append(out, leafComps(ut.Elem())...)
+			} else {
+				out = append(out, cellComps("E$"+sanitize(elemKey(ut.Elem())), ut.Elem())...)
+			}
+			continue
+		case *types.Map:
+			out = append(out, mapComps(ut)...)
+			continue
+		}
+		// scalar field selector
+		if sx, ok := mx.(*ast.SelectorExpr); ok {
+			if sel, ok := cl.Info.Selections[sx]; ok && sel.Kind() == types.FieldVal {
+				curT := sel.Recv()
+				idx := sel.Index()
+				okPath := true
+				for n, i := range idx {
+					curT = deref(curT)
+					st, isS := curT.Underlying().(*types.Struct)
+					if !isS {
+						okPath = false
+						break
+					}
+					f := st.Field(i)
+					if n == len(idx)-1 {
+						out = append(out, cellComps(fieldComp(curT, f), f.Type())...)
+					}
+					curT = f.Type()
+				}
+				if okPath {
+					continue
+				}
+			}
+		}
+		return nil, true
+	}
+	return out, false
 }
 
 func (fv *FV) loopSpec(s ast.Stmt) (*LoopSpec, int) {
